@@ -24,7 +24,7 @@ MC = {
 }
 
 
-ACTIONS = {"C12": ("ConsumeW", "ReleaseW"), "C13": ("ViaClientR", "ListSlotsR")}
+ACTIONS = {"C12": ("ConsumeW", "ReleaseW"), "C13": ("ViaClientR", "ListSlotsR", "SlotReplyR")}
 
 
 def build(prop):
@@ -75,6 +75,8 @@ def why_c13(e):
         if e["ncalls"] != 1:
             w.append("served agent saw %d calls" % e["ncalls"])
         w.append("served agent method=%s code=%d" % (e["method"], e["code"]))
+    if e.get("shape", "normal") != "normal":
+        w.append("served agent returned shape=" + e["shape"])
     for k in ("argeq", "reseq", "steq"):
         if not e[k]:
             w.append(k + "=false")
@@ -189,7 +191,7 @@ def run_c13(prop, tier, binp, verdict, drift):
             "reps": 2 if tier == "quick" else 10, "replays": [], "workers": 3}
     ts, summ = run_harness(prop, binp, plan, cfg, 3000)
     st = summ["stats"]
-    if st.get("cases", 0) < len(un["cases"]) or st.get("tools", 0) < len(un["tools"]):
+    if st.get("cases", 0) < len(un["cases"]) * plan["reps"] or st.get("tools", 0) < len(un["tools"]):
         raise NoVerdict("the harness replayed %d/%d operation cases and %d/%d tool outputs" %
                         (st.get("cases", 0), len(un["cases"]), st.get("tools", 0), len(un["tools"])))
     nval, vst = judge(prop, verdict, ts, cfg, drift)
